@@ -430,6 +430,27 @@ func c13Run(c *mon.Ctx) {
 			c.Sample(map[string]any{"kind": "build", "form": rl.Form, "syscalls": rl.Syscalls, "filters": len(rl.Filters)})
 		}
 	})
+	// the 64-slot limit from both sides: n valid filters (value and inter-field) x 0-3 keys, and watches with keys
+	for n := 56; n <= 72; n++ {
+		for nk := 0; nk <= 3; nk++ {
+			for _, inter := range []bool{false, true} {
+				rl := &c13Rule{Form: "syscall", List: "exit", Action: "always"}
+				for i := 0; i < n; i++ {
+					if inter && i%2 == 1 {
+						rl.Filters = append(rl.Filters, rule.FilterSpec{Type: rule.InterFieldFilterType, LHS: "uid", Comparator: "=", RHS: "euid"})
+					} else {
+						rl.Filters = append(rl.Filters, rule.FilterSpec{Type: rule.ValueFilterType, LHS: "pid", Comparator: "=", RHS: fmt.Sprint(i)})
+					}
+				}
+				for i := 0; i < nk; i++ {
+					rl.Keys = append(rl.Keys, fmt.Sprintf("k%d", i))
+				}
+				e.build(0, rl)
+				ev.Add(1)
+				c.Add("field_limit_boundary_builds", 1)
+			}
+		}
+	}
 	// every syscall number around each mask-word boundary, alone
 	for _, sc := range c13SyscallNums {
 		e.build(0, &c13Rule{Form: "syscall", List: "exit", Action: "always", Syscalls: []string{sc}})
